@@ -50,12 +50,8 @@ func Judge(text []byte) (bad, fid string, extend bool, accepted bool) {
 		// attributed only when the model with that defect's emulation reproduces the
 		// library's verdict and tree exactly
 		if bad != "" && fid == "" && hasMultiByte(orig) {
-			toks, lerr := msyntax.LexEmuRuneNames(orig)
-			var en *msyntax.Node
-			var perr *msyntax.Error
-			if lerr == nil {
-				en, perr = msyntax.ParseTokens(toks)
-			}
+			en, perr := msyntax.ParseEmuRuneNames(orig)
+			var lerr *msyntax.Error
 			emuOK := lerr == nil && perr == nil
 			if emuOK == lv.OK && (!emuOK || astx.DumpCanon(doc, true) == en.Dump(true)) {
 				fid = "C03-F2"
